@@ -20,6 +20,7 @@ import (
 	"github.com/cedar-policy/cedar-go/verif/c13"
 	"github.com/cedar-policy/cedar-go/verif/c18"
 	"github.com/cedar-policy/cedar-go/verif/c10"
+	"github.com/cedar-policy/cedar-go/verif/c16"
 	"github.com/cedar-policy/cedar-go/verif/c20"
 	"github.com/cedar-policy/cedar-go/verif/core"
 )
@@ -39,6 +40,7 @@ var registry = map[string]func() *core.Check{
 	"C13": c13.Check,
 	"C18": c18.Check,
 	"C10": c10.Check,
+	"C16": c16.Check,
 	"C20": c20.Check,
 }
 
